@@ -1,34 +1,223 @@
 import TxdbusModel.Proofs.Auth.ServerMechs
 import TxdbusModel.Proofs.Auth.ServerLines
 /-
-Conforming clients against the real mechanisms, at protocol level (C06): the whole stream in one
-read; any other splitting follows from `runReads_sim_whole`.
+Conforming clients at protocol level (C06): a conversation whose lines are each answered without an
+exception and whose last line authenticates is accepted, in one read and (by `runReads_sim_whole`)
+under every splitting into reads.
 -/
 namespace Txdbus.AuthServer
 
 open Txdbus.Gen.ServerAuth
 
-/-- The byte stream of the ANONYMOUS conversation. -/
-def anonymousStream : Bytes := 0 :: lit "AUTH ANONYMOUS\r\nBEGIN\r\n"
+variable {W I : Type} (S : MechSys W I)
 
-/-- The byte stream of the EXTERNAL conversation. -/
-def externalStream : Bytes := 0 :: lit "AUTH EXTERNAL\r\nDATA\r\nBEGIN\r\n"
+/-- Every line is handled without raising, none before the last authenticates, the last one does. -/
+def convOk (s : Server W I) : List Bytes → Prop
+  | [] => False
+  | [l] => (handle S s l).res = .ok ∧ (handle S s l).srv.authenticated = true ∧ l.length ≤ maxAuthLength
+  | l :: l' :: t =>
+    (handle S s l).res = .ok ∧ (handle S s l).srv.authenticated = false ∧ l.length ≤ maxAuthLength ∧
+      convOk (handle S s l).srv (l' :: t)
 
-theorem anonymous_whole (guid : Bytes) (w : RealWorld) :
-    (recv real (Proto.init guid w) anonymousStream).authenticated = true ∧
-    (recv real (Proto.init guid w) anonymousStream).closed = false ∧
-    (recv real (Proto.init guid w) anonymousStream).sent = [wOk ++ guid] ∧
-    (recv real (Proto.init guid w) anonymousStream).guid = some anonymousUser := by
-  have hsp : splitCRLF (lit "AUTH ANONYMOUS\r\nBEGIN\r\n") = ([lit "AUTH ANONYMOUS", lit "BEGIN"], []) := by decide
-  have hl1 : ¬ (lit "AUTH ANONYMOUS").length > maxAuthLength := by decide
-  have hl2 : ¬ (lit "BEGIN").length > maxAuthLength := by decide
+/-- The authenticator after the conversation. -/
+def convFinal (s : Server W I) : List Bytes → Server W I
+  | [] => s
+  | l :: t => convFinal (handle S s l).srv t
+
+theorem lineLoop_convOk (p : Proto W I) (ls : List Bytes) (hc : p.closed = false) (h : convOk S p.srv ls) :
+    (lineLoop S p ls).2 = .success [] ∧ (lineLoop S p ls).1.closed = false ∧
+    (lineLoop S p ls).1.srv = convFinal S p.srv ls := by
+  induction ls generalizing p with
+  | nil => exact absurd h (by simp [convOk])
+  | cons l t ih =>
+    cases t with
+    | nil =>
+      obtain ⟨h1, h2, h3⟩ := h
+      have h3' : ¬ l.length > maxAuthLength := by omega
+      simp [lineLoop, hc, h3', h1, h2, convFinal]
+    | cons l' t' =>
+      obtain ⟨h1, h2, h3, h4⟩ := h
+      have h3' : ¬ l.length > maxAuthLength := by omega
+      have := ih (p.handled l (handle S p.srv l)) hc h4
+      have step : lineLoop S p (l :: l' :: t') = lineLoop S (p.handled l (handle S p.srv l)) (l' :: t') := by
+        rw [lineLoop]
+        simp only [hc, h3', h1, h2, Bool.false_eq_true, if_false]
+      rw [step]
+      exact this
+
+/-- The whole conversation in one read by a fresh protocol. -/
+theorem conv_whole (guid : Bytes) (w : W) (stream : Bytes) (ls : List Bytes)
+    (hsp : splitCRLF stream = (ls, [])) (h : convOk S (Server.init guid w) ls) :
+    (recv S (Proto.init guid w) (0 :: stream)).authenticated = true ∧
+    (recv S (Proto.init guid w) (0 :: stream)).closed = false ∧
+    (recv S (Proto.init guid w) (0 :: stream)).guid = (convFinal S (Server.init guid w) ls).guid := by
+  rw [recv_first_nul S _ _ rfl rfl rfl, recvLines_eq]
+  rw [show (Proto.init guid w : Proto W I).dropFirst.buffer ++ stream = stream from rfl, hsp]
+  have := lineLoop_convOk S ((Proto.init guid w : Proto W I).dropFirst.setBuf []) ls rfl h
+  generalize lineLoop S ((Proto.init guid w : Proto W I).dropFirst.setBuf []) ls = qk at this
+  obtain ⟨q, k⟩ := qk
+  obtain ⟨h1, h2, h3⟩ := this
+  simp only at h1 h2 h3
+  subst h1
+  exact ⟨rfl, h2, by show q.srv.guid = _; rw [h3]; rfl⟩
+
+/-- ... and under every splitting of the same bytes into non-empty reads. -/
+theorem conv_accepted (guid : Bytes) (w : W) (stream : Bytes) (ls : List Bytes)
+    (hsp : splitCRLF stream = (ls, [])) (h : convOk S (Server.init guid w) ls)
+    (reads : List Bytes) (hall : ∀ r ∈ reads, r ≠ []) (hflat : reads.flatten = 0 :: stream) :
+    (runReads S (Proto.init guid w) reads).authenticated = true ∧
+    (runReads S (Proto.init guid w) reads).closed = false ∧
+    (runReads S (Proto.init guid w) reads).guid = (convFinal S (Server.init guid w) ls).guid := by
+  have hne : reads ≠ [] := by
+    intro h0; rw [h0] at hflat; cases hflat
+  have hs := (runReads_sim_whole S (Proto.init guid w) reads hne hall).obs
+  rw [hflat] at hs
+  have hw := conv_whole S guid w stream ls hsp h
+  have e1 : (runReads S (Proto.init guid w) reads).authenticated =
+      (recv S (Proto.init guid w) (0 :: stream)).authenticated := congrArg Obs.authenticated hs
+  have e2 : (runReads S (Proto.init guid w) reads).closed =
+      (recv S (Proto.init guid w) (0 :: stream)).closed := congrArg Obs.closed hs
+  have e3 : (runReads S (Proto.init guid w) reads).guid =
+      (recv S (Proto.init guid w) (0 :: stream)).guid := congrArg Obs.guid hs
+  rw [e1, e2, e3]
+  exact hw
+
+/-! ## the three conforming conversations -/
+
+/-- `l1 \r\n l2 \r\n ...` -/
+def encodeLines : List Bytes → Bytes
+  | [] => []
+  | l :: t => l ++ 13 :: 10 :: encodeLines t
+
+def NoCR (l : Bytes) : Prop := ∀ b ∈ l, b ≠ 13
+
+theorem splitCRLF_line (l rest : Bytes) (h : NoCR l) :
+    splitCRLF (l ++ 13 :: 10 :: rest) = (l :: (splitCRLF rest).1, (splitCRLF rest).2) := by
+  induction l with
+  | nil => exact splitCRLF_crlf rest
+  | cons c t ih =>
+    have hc : c ≠ 13 := h c (by simp)
+    have ht : NoCR t := fun b hb => h b (by simp [hb])
+    cases t with
+    | nil =>
+      simp only [List.cons_append, List.nil_append]
+      rw [splitCRLF_other c 13 _ (by simp [hc]), splitCRLF_crlf]
+      rfl
+    | cons d t' =>
+      simp only [List.cons_append] at ih ⊢
+      rw [splitCRLF_other c d _ (by simp [hc]), ih ht]
+      rfl
+
+theorem splitCRLF_encode (ls : List Bytes) (h : ∀ l ∈ ls, NoCR l) : splitCRLF (encodeLines ls) = (ls, []) := by
+  induction ls with
+  | nil => rfl
+  | cons l t ih =>
+    rw [encodeLines, splitCRLF_line l _ (h l (by simp)), ih (fun x hx => h x (by simp [hx]))]
+
+theorem noCR_of_noSpace (l : Bytes) (h : NoSpace l) : NoCR l := by
+  intro b hb hb13
+  have := h b hb
+  rw [hb13] at this
+  exact absurd this (by decide)
+
+theorem noCR_append (a b : Bytes) (ha : NoCR a) (hb : NoCR b) : NoCR (a ++ b) := by
+  intro x hx
+  rcases List.mem_append.1 hx with h | h
+  · exact ha x h
+  · exact hb x h
+
+/-- ANONYMOUS is accepted under every splitting of `\0AUTH ANONYMOUS\r\nBEGIN\r\n`. -/
+theorem anonymous_accepted (guid : Bytes) (w : RealWorld) (reads : List Bytes) (hall : ∀ r ∈ reads, r ≠ [])
+    (hflat : reads.flatten = 0 :: encodeLines [lit "AUTH ANONYMOUS", lit "BEGIN"]) :
+    (runReads real (Proto.init guid w) reads).authenticated = true ∧
+    (runReads real (Proto.init guid w) reads).closed = false ∧
+    (runReads real (Proto.init guid w) reads).guid = some anonymousUser := by
   obtain ⟨a1, a2, a3, a4, a5, a6⟩ := anonymous_lines (Server.init guid w) rfl
-  unfold anonymousStream
-  rw [recv_first_nul real _ _ rfl rfl rfl, recvLines_eq]
-  simp only [show ({ (Proto.init guid w : Proto RealWorld Inst) with firstByte := false }).buffer = [] from rfl,
-    List.nil_append, hsp]
-  simp [lineLoop, Proto.setBuf, Proto.init, hl1, hl2, a1, a2, a3, a4, a5, a6, Proto.handled, Proto.handOff,
-    Server.init, joinCRLF]
-  sorry
+  have hsp : splitCRLF (encodeLines [lit "AUTH ANONYMOUS", lit "BEGIN"]) = ([lit "AUTH ANONYMOUS", lit "BEGIN"], []) := by
+    decide
+  have hconv : convOk real (Server.init guid w) [lit "AUTH ANONYMOUS", lit "BEGIN"] :=
+    ⟨a1, a3, by decide, a4, a5, by decide⟩
+  have := conv_accepted real guid w _ _ hsp hconv reads hall hflat
+  refine ⟨this.1, this.2.1, ?_⟩
+  rw [this.2.2]
+  exact a6
+
+/-- EXTERNAL with peer credentials is accepted under every splitting of
+`\0AUTH EXTERNAL\r\nDATA\r\nBEGIN\r\n`, as the passwd name of the peer uid. -/
+theorem external_accepted (guid : Bytes) (w : RealWorld) (uid : Nat) (e : PwEnt)
+    (hc : w.cfg.creds = some uid) (hu : getpwuid w.cfg uid = some e)
+    (reads : List Bytes) (hall : ∀ r ∈ reads, r ≠ [])
+    (hflat : reads.flatten = 0 :: encodeLines [lit "AUTH EXTERNAL", lit "DATA", lit "BEGIN"]) :
+    (runReads real (Proto.init guid w) reads).authenticated = true ∧
+    (runReads real (Proto.init guid w) reads).closed = false ∧
+    (runReads real (Proto.init guid w) reads).guid = some e.name := by
+  obtain ⟨a1, _, a2, _, a3, a4, a5, a6, a7⟩ := external_lines (Server.init guid w) uid e rfl hc hu
+  have hsp : splitCRLF (encodeLines [lit "AUTH EXTERNAL", lit "DATA", lit "BEGIN"]) =
+      ([lit "AUTH EXTERNAL", lit "DATA", lit "BEGIN"], []) := by decide
+  have hconv : convOk real (Server.init guid w) [lit "AUTH EXTERNAL", lit "DATA", lit "BEGIN"] :=
+    ⟨a1, a3, by decide, a2, a4, by decide, a5, a6, by decide⟩
+  have := conv_accepted real guid w _ _ hsp hconv reads hall hflat
+  refine ⟨this.1, this.2.1, ?_⟩
+  rw [this.2.2]
+  exact a7
+
+theorem hexlify_length (x : Bytes) : (hexlify x).length = 2 * x.length := by
+  induction x with
+  | nil => rfl
+  | cons b t ih => simp [hexlify, ih]; omega
+
+/-- DBUS_COOKIE_SHA1 with the right cookie is accepted under every splitting: there are a challenge and a
+cookie (the ones sent in the DATA reply and stored in the user's keyring file under the id sent) such
+that the client answering `hexlify(sha1(challenge:cc:cookie))` is authenticated as `user`. -/
+theorem cookie_accepted (guid : Bytes) (w : RealWorld) (user cc : Bytes) (e : PwEnt)
+    (hu0 : user ≠ []) (hua : isAscii user = true) (hup : parseInt user = none) (hul : user.length ≤ 8000)
+    (hun : getpwnam w.cfg user = some e) (hud : lookupDir w e.home ≠ .bad)
+    (hcc : cc ≠ []) (hncc : NoSpace cc) (hcca : isAscii cc = true) (hccl : cc.length ≤ 8000)
+    (hsha : ∀ x, (w.cfg.sha1 x).length = 20) :
+    ∃ (chal cookie : Bytes),
+      ∀ (reads : List Bytes), (∀ r ∈ reads, r ≠ []) →
+        reads.flatten = 0 :: encodeLines [cookieAuthLine user, cookieDataLine w.cfg.sha1 chal cc cookie, lit "BEGIN"] →
+        (runReads real (Proto.init guid w) reads).authenticated = true ∧
+        (runReads real (Proto.init guid w) reads).closed = false ∧
+        (runReads real (Proto.init guid w) reads).guid = some user := by
+  have hsha' : ∀ x, w.cfg.sha1 x ≠ [] := by
+    intro x hx
+    have := hsha x
+    rw [hx] at this
+    cases this
+  obtain ⟨c1, cid, a1, a2, a3, a4, a5, a6, a7, a8, a9, a10⟩ :=
+    cookie_lines (Server.init guid w) user cc e rfl hu0 hua hup hun hud hcc hncc hcca hsha'
+  refine ⟨c1.challenge, c1.cookie, ?_⟩
+  intro reads hall hflat
+  have hlit1 : NoCR (lit "AUTH DBUS_COOKIE_SHA1 ") := by unfold NoCR; decide
+  have hlit2 : NoCR (lit "DATA ") := by unfold NoCR; decide
+  have hlit3 : NoCR (lit "BEGIN") := by unfold NoCR; decide
+  have hnc : ∀ l ∈ [cookieAuthLine user, cookieDataLine w.cfg.sha1 c1.challenge cc c1.cookie, lit "BEGIN"], NoCR l := by
+    intro l hl
+    simp only [List.mem_cons, List.not_mem_nil, or_false] at hl
+    rcases hl with rfl | rfl | rfl
+    · exact noCR_append _ _ hlit1 (noCR_of_noSpace _ (noSpace_hexlify _))
+    · exact noCR_append _ _ hlit2 (noCR_of_noSpace _ (noSpace_hexlify _))
+    · exact hlit3
+  have hsp := splitCRLF_encode _ hnc
+  have hl1 : (cookieAuthLine user).length ≤ maxAuthLength := by
+    unfold cookieAuthLine
+    rw [List.length_append, hexlify_length]
+    have : (lit "AUTH DBUS_COOKIE_SHA1 ").length = 22 := by decide
+    have : maxAuthLength = 16384 := rfl
+    omega
+  have hl2 : (cookieDataLine w.cfg.sha1 c1.challenge cc c1.cookie).length ≤ maxAuthLength := by
+    unfold cookieDataLine cookieHash
+    simp only [List.length_append, hexlify_length, List.length_cons, hsha]
+    have : (lit "DATA ").length = 5 := by decide
+    have : maxAuthLength = 16384 := rfl
+    omega
+  have hconv : convOk real (Server.init guid w)
+      [cookieAuthLine user, cookieDataLine w.cfg.sha1 c1.challenge cc c1.cookie, lit "BEGIN"] :=
+    ⟨a1, a2, hl1, a5, a7, hl2, a8, a9, by decide⟩
+  have := conv_accepted real guid w _ _ hsp hconv reads hall hflat
+  refine ⟨this.1, this.2.1, ?_⟩
+  rw [this.2.2]
+  exact a10
 
 end Txdbus.AuthServer
